@@ -3,14 +3,15 @@ covariance factor (ssi.build_hank [T], ssi.SSI_fast [Q1..Q4], ssi.SSI_poles [Fn_
 import contextlib
 import inspect
 import re
+import sys
 
 import numpy as np
 
-from common import R, Rmat, Rvec, fl, flmat, max_rel_err
+from common import Cvec, Cx, R, Rmat, Rvec, cfl, fl, flmat, max_rel_err
 
 from common import wiring_pre_build as pre_build  # noqa: E402,F401
 
-LEAN_MODULES = ["PyomaVerif.Props.C17", "PyomaVerif.Mutants.C17", "PyomaVerif.Props.WiringRun"]
+LEAN_MODULES = ["PyomaVerif.Props.C17", "PyomaVerif.Props.C17Jac", "PyomaVerif.Props.C17Vec", "PyomaVerif.Mutants.C17", "PyomaVerif.Mutants.C17Vec", "PyomaVerif.Props.WiringRun"]
 THEOREMS = [
     # call-site wiring of the class layer, regenerated from /repo on every run (translate_wiring.py)
     "PV.WiringRun.C01_run_realisation",
@@ -31,6 +32,39 @@ THEOREMS = [
     "PV.C17.C17_realisation_sens",
     "PV.C17.C17_realisation_sens_eig",
     "PV.C17.C17_realisation_sens_consistent",
+    # depth extension (Props/C17Jac.lean): the (f, xi) Jacobian and the singular-triple sensitivity
+    "PV.C17.C17_jfx_chain",
+    "PV.C17.C17_fx_jacobian",
+    "PV.C17.C17_ufx_is_derivative",
+    "PV.C17.C17_eig_sens_realisation",
+    "PV.C17.C17_sv_sigma_sens",
+    "PV.C17.C17_sv_sens",
+    "PV.C17.C17_sv_sens_exists",
+    "PV.C17.C17_kiArg_bridge",
+    "PV.C17.C17_johT_column",
+    "PV.C17.C17_johT_first_order",
+    # vectorised link (Props/C17Vec.lean): Q1..Q3, S4_n, Pnn, Kronecker contraction of SSI_poles = first-order eigenvalue
+    # perturbation; Fn_cov = sum of squared directional derivatives
+    "PV.C17.C17_vec_AXB",
+    "PV.C17.C17_pnn_commutation",
+    "PV.C17.C17_selections",
+    "PV.C17.C17_q123_entries",
+    "PV.C17.C17_johT_contract",
+    "PV.C17.C17_Q_unvec",
+    "PV.C17.C17_ooArg_value",
+    "PV.C17.C17_first_order_inverse_exists",
+    "PV.C17.C17_A_first_order",
+    "PV.C17.C17_lambda_first_order",
+    "PV.C17.C17_fastA_normal_eq",
+    "PV.C17.C17_lambda_first_order_qr",
+    "PV.C17.C17_lambda_first_order_bundled",
+    "PV.C17.C17_scaling_direction",
+    "PV.C17.C17_variance_is_sum_of_squares",
+    "PV.C17.ExVec.ident",
+    "PV.C17.ExScale.ident2",
+    "PV.Mutants.C17Vec.coded_is_zero",
+    "PV.Mutants.C17Vec.kron_swapped_fails",
+    "PV.Mutants.C17Vec.no_perm_q2_fails",
     "PV.Mutants.C17.rowmajor_entry_fails",
     "PV.Mutants.C17.rowmajor_selection_fails",
     "PV.Mutants.C17.vomOld_not_singular_vector",
@@ -43,7 +77,10 @@ RULE = (
     "orders and the np.kron selections of SSI_fast vs the index-level model (exact on integers); the `Vom = ...` "
     "statement of the current source evaluated on a recorded V1_t vs the model; Q1..Q4 of SSI_fast given the recorded "
     "svd/inv outputs at 1e-8 and the inv arguments at 1e-10; Fn_cov of SSI_poles vs the model read-out "
-    "|cov[0,0]| = sum of per-column squares given harness-replicated Jfx and row weights at 1e-9. "
+    "|cov[0,0]| = sum of per-column squares given harness-replicated Jfx and row weights at 1e-9; every intermediate of "
+    "the uncertainty loop of SSI_poles (Pnn, S4_n exactly; inv argument, PnQ1, PnQ2_Q3, Qi, JaohT, Jfx_l, Ufx, cov_fx[0,0], "
+    "Fn_cov at 1e-9; locals recorded by a line tracer at the statement `Fn_cov[jj, ii] = ...`) vs the model pass `unc_pole` "
+    "run on the code's Q1..Q3 and the recorded inv / eig / log / abs outputs (measured worst 3e-14 over the thorough tier). "
     "oracle: central finite differences of the real identification (SSI_fast + SSI_poles without uncertainty) at two "
     "steps agreeing to 1e-3, against sqrt(Fn_cov) for explicit single/multi-column factors (rtol 5e-3; measured worst "
     "4.4e-4) on exact-low-rank-plus-noise and data-estimated Hankel matrices; the factor of build_hank against the "
@@ -52,11 +89,14 @@ RULE = (
 )
 EXTRA_TRUSTED = [
     "np.linalg.svd / np.linalg.inv / scipy.linalg.eig / np.linalg.qr outputs (recorded and passed to the model); np.sqrt, np.log",
-    "the harness replication of Jfx and of the complex row weights of SSI_poles (checked only through the final Fn_cov)",
+    "the harness replication of Jfx and of the complex row weights of SSI_poles in the `unc_var` comparison (checked only through the final Fn_cov; the `unc_pole` comparison uses the model's own Pnn, S4_n, eq. 43/44 and Jfx_l)",
+    "np.conj, np.real, np.imag, np.abs, np.pi (values passed to / applied by the model as given)",
 ]
 ASSUMPTIONS = [
-    "the closed form of the singular-vector sensitivities (eqs 28-34) is not proved in Lean; it is covered by the finite-difference oracle only",
-    "C17_eig_sens / C17_realisation_sens are statements about abstract dual-number matrices; their link to SSI_poles is the finite-difference oracle",
+    "the closed form of the singular-vector sensitivities (eqs 28-34) is proved to be the unique first-order (dual-number) solution of the singular-triple equations, for the model's kiArg/johT (C17_sv_sens, C17_johT_first_order), with Ki an exact inverse; differentiability of the SVD triple itself (implicit-function step) is not proved",
+    "the 2x2 Jacobian Jfx_l is proved to be the Frechet derivative of (Re, Im lam_d) -> (fn, 100*xi) off the branch cut (C17_fx_jacobian); the Lean transcription `jfx` of the three coded matrices is now part of Model/Unc.lean and executed by the driver (`unc_pole`) against the traced Jfx_l",
+    "the link of C17_eig_sens / C17_realisation_sens to SSI_fast/SSI_poles (Q1..Q3, S4_n, Pnn, np.kron(phi, I), OO, chi) is proved (Props/C17Vec.lean: C17_Q_unvec, C17_A_first_order, C17_lambda_first_order[_qr], C17_variance_is_sum_of_squares) under the recorded-factor contracts: exact SVD triples for the first n singular values (H v = s u, u^T H = s v^T, unit vectors), Ki an exact inverse of eq. 28, rs = 1/sqrt(s) exact, Obs = Uom diag(sqrt s), OO an exact inverse of O_p^T O_p, QR exact (Q^T Q = 1, R upper triangular, inv(R[:n,:n]) exact) or equivalently A_n the normal-equation solution, an exact eigen-triple (lam_d, r_eigvt, conj(l_eigvt)) with chi.phi != 0, exact np.pi/np.log/np.abs in Jfx_l; the statement is for ANY first-order (dual-number) identification of H + eps*unvec(T[:,k]) extending those factors",
+    "not proved: existence of such a first-order identification in general (existence of the first-order SVD triple is C17_sv_sens_exists, of the first-order inverse C17_first_order_inverse_exists; existence of the first-order eigen-triple for a simple eigenvalue is not proved; a complete instance is exhibited for order 1) and the analytic step that the dual-number epsilon-part is the derivative of the floating-point pipeline (differentiability of svd/eig as functions of H)",
     "when nb divides N the last block of build_hank has Nb-1 columns but is divided by Nb (slice clipping, mirrored by the model); the factor oracle uses nb not dividing N",
     "step = 1 (the SSI routines crash for other steps)",
 ]
@@ -105,8 +145,31 @@ def gen_system(g, l, n):
     return A, C
 
 
-def gen_hankel_lowrank(g, l, r, p, n, noise):
-    A, C = gen_system(g, l, n)
+def gen_system_equal_fn(g, l, n):
+    """as gen_system, but two of the modes share the natural frequency |ln(lambda)|/dt and differ in damping only
+    (two distinct, well separated poles with the same fn at the same model order)"""
+    assert n >= 4
+    for _ in range(200):
+        w = g.uniform(0.8, 2.2)
+        x1, x2 = g.uniform(0.01, 0.06), g.uniform(0.2, 0.45)
+        lam = [np.exp(w * (-x + 1j * np.sqrt(1 - x * x))) for x in (x1, x2)]
+        rest = list(g.uniform(0.15, 0.9, n - 4) * g.choice([-1.0, 1.0], n - 4))
+        ev = lam + [z.conjugate() for z in lam] + rest
+        sep = min(abs(ev[a] - ev[b]) for a in range(n) for b in range(a))
+        if sep > 0.1:
+            break
+    D = np.zeros((n, n))
+    for k, z in enumerate(lam):
+        D[2 * k : 2 * k + 2, 2 * k : 2 * k + 2] = [[z.real, z.imag], [-z.imag, z.real]]
+    for k, z in enumerate(rest):
+        D[4 + k, 4 + k] = z
+    Q, _ = np.linalg.qr(g.standard_normal((n, n)))
+    S = Q @ np.diag(g.uniform(0.7, 1.4, n)) @ np.linalg.qr(g.standard_normal((n, n)))[0]
+    return S @ D @ np.linalg.inv(S), g.standard_normal((l, n))
+
+
+def gen_hankel_lowrank(g, l, r, p, n, noise, equal_fn=False):
+    A, C = gen_system_equal_fn(g, l, n) if equal_fn else gen_system(g, l, n)
     G = g.standard_normal((n, r))
     blocks = [C @ np.linalg.matrix_power(A, k) @ G for k in range(2 * p + 2)]
     H = np.block([[blocks[i + j + 1] for j in range(p + 1)] for i in range(p + 1)])
@@ -300,6 +363,73 @@ def recording(names):
             setattr(np.linalg, n, orig[n])
 
 
+@contextlib.contextmanager
+def snapshot_poles(names):
+    """snapshot the listed locals of ssi.SSI_poles every time the statement `Fn_cov[jj, ii] = ...` is about to run
+    (all intermediates of that (ii, jj) pass of the uncertainty loop are then bound)"""
+    ssi = _ssi()
+    code = ssi.SSI_poles.__code__
+    lines, start = inspect.getsourcelines(ssi.SSI_poles)
+    targets = {start + i for i, ln in enumerate(lines) if re.match(r"\s*Fn_cov\[jj, ii\]\s*=", ln)}
+    snaps = {}
+
+    def local(frame, event, arg):
+        if event == "line" and frame.f_lineno in targets:
+            loc = frame.f_locals
+            snaps[(int(loc["ii"]), int(loc["jj"]))] = {
+                k: (np.array(loc[k], copy=True) if isinstance(loc[k], np.ndarray) else loc[k]) for k in names if k in loc
+            }
+        return local
+
+    def glob(frame, event, arg):
+        return local if frame.f_code is code else None
+
+    old = sys.gettrace()
+    sys.settrace(glob)
+    try:
+        yield snaps, bool(targets)
+    finally:
+        sys.settrace(old)
+
+
+POLE_LOCALS = ["Pnn", "S4_n", "O_p", "OO", "PnQ1", "PnQ2_Q3", "Qi", "JaohT", "Jfx_l", "Ufx", "cov_fx", "lam_d", "lam_c",
+               "l_eigvt", "r_eigvt"]
+
+
+def corr_pole_pass(ctx, key, inp, Obs, l, ordmax, Qs, snap, inv_rec, ii, jj, fn_cov):
+    """one (ii, jj) pass of the uncertainty loop of SSI_poles: every intermediate the code bound (recorded by the
+    tracer) against the model run on the same Q1..Q3 and the recorded inv / eig outputs"""
+    Q1, Q2, Q3 = Qs
+    lam_d, lam_c, chi, phi = snap["lam_d"], snap["lam_c"], np.conj(snap["l_eigvt"][:, jj]), snap["r_eigvt"][:, jj]
+    OO = inv_rec[1]
+    m = ctx.model(
+        "unc_pole", Q1=Rmat(Q1), Q2=Rmat(Q2), Q3=Rmat(Q3), OO=Rmat(OO), Obs=Rmat(Obs), l=l, n=ii, ordmax=ordmax,
+        lam=Cx(lam_d[jj]), lamc=Cx(lam_c[jj]), chi=Cvec(chi), phi=Cvec(phi), pi=R(np.pi), dt=R(DT),
+        absd=R(np.abs(lam_d[jj])), absc=R(np.abs(lam_c[jj])),
+    )
+    cm = lambda M: np.array([[cfl(z) for z in row] for row in M])  # noqa: E731
+    rm = lambda M: np.array(flmat(M))  # noqa: E731
+    ok_sel = np.array_equal(rm(m["Pnn"]), snap["Pnn"]) and np.array_equal(rm(m["S4n"]), snap["S4_n"])
+    ctx.corr("SSI_poles[Pnn,S4_n]", ok_sel, inp, None, None, key + (ii,))
+    e_arg = max_rel_err(rm(m["ooArg"]), inv_rec[0][0])
+    ctx.corr("SSI_poles[inv-arg]", e_arg <= 1e-10 and np.array_equal(OO, snap["OO"]), inp, None, e_arg, key + (ii,))
+    errs = {
+        "PnQ1": max_rel_err(rm(m["PnQ1"]), snap["PnQ1"]),
+        "PnQ2_Q3": max_rel_err(rm(m["PnQ23"]), snap["PnQ2_Q3"]),
+        "Qi": max_rel_err(cm(m["Qi"]), snap["Qi"]),
+        "JaohT": max_rel_err(cm(m["JaohT"])[0], snap["JaohT"]),
+        "Jfx_l": max_rel_err(rm(m["Jfx"]), snap["Jfx_l"]),
+        "Ufx": max_rel_err(rm(m["Ufx"]), snap["Ufx"]),
+    }
+    var = fl(m["var"])
+    real = float(snap["cov_fx"][0, 0])
+    errs["cov_fx00"] = abs(var - real) / max(abs(real), 1e-300)
+    errs["Fn_cov"] = abs(abs(var) - fn_cov) / max(abs(fn_cov), 1e-300)
+    worst = max(errs.values())
+    ctx.dist["pole_worst_rel"] = max(ctx.dist.get("pole_worst_rel", 0.0), worst)
+    ctx.corr("SSI_poles[uncertainty-pass]", worst <= 1e-9, inp, errs, None, key + (ii, jj))
+
+
 def corr_factor(ctx):
     ssi = _ssi()
     for k in range(ctx.n(40, 500)):
@@ -423,7 +553,8 @@ def corr_q_and_var(ctx):
         ctx.dist["q_worst_rel"] = max(ctx.dist.get("q_worst_rel", 0.0), max(errs))
         ctx.corr("SSI_fast[Q1..Q4]", max(errs) <= 1e-8, {"H": H.tolist(), "T": T.tolist(), "br": p, "ordmax": ordmax}, errs, None, key)
         # --- variance read-out of SSI_poles
-        Fn, Xi, Phi, Lam, Fn_cov, Xi_cov, _ = ssi.SSI_poles(Obs, A, C, ordmax, DT, step=1, calc_unc=True, Q1=Q1, Q2=Q2, Q3=Q3, Q4=Q4)
+        with snapshot_poles(POLE_LOCALS) as (snaps, found), recording(["inv"]) as rec_p:
+            Fn, Xi, Phi, Lam, Fn_cov, Xi_cov, _ = ssi.SSI_poles(Obs, A, C, ordmax, DT, step=1, calc_unc=True, Q1=Q1, Q2=Q2, Q3=Q3, Q4=Q4)
         ii = ctx.rng.randint(1, ordmax)
         fn, xi, phi, lam_c, lam_d, chi, phi_r = ssi.ac2mp(A[ii], C[ii], DT, calc_unc=True)
         jj = ctx.rng.randrange(ii)
@@ -450,6 +581,16 @@ def corr_q_and_var(ctx):
         ok = abs(var - real) <= 1e-9 * max(abs(real), 1e-300) and abs(cols - real) <= 1e-9 * max(abs(real), 1e-300)
         ctx.corr("SSI_poles[Fn_cov]", ok, {"H": H.tolist(), "T": T.tolist(), "br": p, "ordmax": ordmax, "ii": ii, "jj": jj},
                  {"var": var, "cols": cols}, real, key + (ii,))
+        # --- the uncertainty loop of SSI_poles itself (Pnn, S4_n, eq. 44, eq. 43, Jfx_l, Ufx, cov_fx), as traced
+        inp_p = {"H": H.tolist(), "T": T.tolist(), "br": p, "ordmax": ordmax}
+        if not found or len(snaps) != ordmax * (ordmax + 1) // 2 or len(rec_p["inv"]) != ordmax:
+            ctx.corr("SSI_poles[uncertainty-pass]", False, inp_p, None,
+                     f"statement `Fn_cov[jj, ii] = ...` traced {len(snaps)} times, inv called {len(rec_p['inv'])} times")
+        else:
+            picks = {(ii, jj), (ordmax, ctx.rng.randrange(ordmax))}
+            for (pi_, pj_) in sorted(picks):
+                corr_pole_pass(ctx, key, inp_p | {"ii": pi_, "jj": pj_}, Obs, l, ordmax, (Q1, Q2, Q3), snaps[(pi_, pj_)],
+                               rec_p["inv"][pi_ - 1], pi_, pj_, float(Fn_cov[pj_, pi_]))
         done += 1
     ctx.count("corr_q_cases", done)
 
@@ -478,6 +619,11 @@ def _gen_fd_case(ctx, from_data):
         ref = sorted(rng.sample(range(l), r))
         H, _ = _ssi().build_hank(Y, Y[ref, :], p, "cov_mm")
         return dict(l=l, r=r, p=p, ordmax=ordmax, H=H, Y=Y, ref=ref, g=g)
+    if ordmax >= 4 and rng.random() < 0.35:
+        # two modes of equal natural frequency and different damping, identified (almost) exactly at order n = ordmax
+        H = gen_hankel_lowrank(g, l, r, p, ordmax, 10 ** g.uniform(-10, -8), equal_fn=True)
+        ctx.count("system_two_modes_equal_fn")
+        return dict(l=l, r=r, p=p, ordmax=ordmax, H=H, g=g)
     n = rng.randint(ordmax, ordmax + 2)
     H = gen_hankel_lowrank(g, l, r, p, n, 10 ** g.uniform(-6, -2))
     return dict(l=l, r=r, p=p, ordmax=ordmax, H=H, g=g)
